@@ -302,13 +302,15 @@ fn fam_unicode(cx: &mut Cx) {
             cx.case("utf8_iter", json!({"s": bytes_json(t)}), json!({"len": t.len()}), &pls, 1, !t.is_empty(), &mut |a1, _, ps, _, _| {
                 let buf = a1.place(ps, t);
                 match Utf8ToUtf32Iterator::new(buf) {
-                    Err(_) => json!({"ok": false, "fwd": [], "pos": [], "bwd": [], "bpos": []}),
+                    Err(_) => json!({"ok": false, "fwd": [], "cur": [], "pos": [], "bwd": [], "bpos": []}),
                     Ok(mut it) => {
                         let (mut fwd, mut pos, mut bwd, mut bpos) = (vec![], vec![], vec![], vec![]);
+                        let mut cur: Vec<i64> = vec![];
                         for _ in 0..t.len() + 2 {
                             match it.next_char() {
                                 Some(c) => {
                                     fwd.push(c as u32);
+                                    cur.push(it.current().map(|x| x as i64).unwrap_or(-1));
                                     pos.push(it.byte_position());
                                 }
                                 None => break,
@@ -323,7 +325,7 @@ fn fam_unicode(cx: &mut Cx) {
                                 None => break,
                             }
                         }
-                        json!({"ok": true, "fwd": fwd, "pos": pos, "bwd": bwd, "bpos": bpos})
+                        json!({"ok": true, "fwd": fwd, "cur": cur, "pos": pos, "bwd": bwd, "bpos": bpos})
                     }
                 }
             });
